@@ -419,7 +419,6 @@ GEOMS_Q = [
 GEOMS_T = [
     ("e3i2i2", (3,), (2, 2), (True, False, False)),
     ("i2e3i2", (3,), (2, 2), (False, True, False)),
-    ("e222", (2, 2, 2), (), (True, True, True)),
     ("e1i3", (1,), (3,), (True, False)),
     ("e3e3", (3, 3), (), (True, True)),
 ]
@@ -509,7 +508,7 @@ def obligations(tier):  # noqa: C901
 
             for slpos in range(len(full) + 1):
                 mk(
-                    f"get_s{slpos}", [jpre, jfix, qpre, qfix, "lin == 0"], "get", slpos, False, 150,
+                    f"get_s{slpos}", [jpre, jfix, qpre, qfix, "lin == 0"], "get", slpos, False, 150 if not thorough else 900,
                     f"__getitem__ with symbolic key in [{lo(2)}..{hi(2)}]-style ranges per axis, slice(None) at position {slpos} (0 = none)",
                     canaries=("strides",) if (be == "file" and gid == "e23" and slpos == 0) else (),
                 )  # fmt: skip
